@@ -674,6 +674,87 @@ def translate(repo):
           "Definition src_default_max_write_bytes : N := %d." % wl["defaults"][1],
           "Definition src_min_max_write_bytes : N := %d." % wl["defaults"][2], ""]
 
+    # ---- src/log/prefix_file_set.rs: Ord / PartialEq for PrefixFile, delete_oldest, the two loops, push, new
+    pf = dict(cmp=[], eq=[], dele=[], older="", over="", push=[], new_ok=False)
+    try:
+        psrc = read(repo, "src/log/prefix_file_set.rs")
+        FLD = {"mtime": "PFmtime", "path": "PFpath", "len": "PFlen"}
+        i = psrc.index("impl Ord for PrefixFile")
+        body = re.sub(r"\s+", "", fn_body(psrc[i:], "fn cmp"))
+        m = re.fullmatch(r"(other|self)\.([a-z]+)\.cmp\(&(other|self)\.([a-z]+)\)((?:\.then_with\(\|\|(?:other|self)\.[a-z]+\.cmp\(&(?:other|self)\.[a-z]+\)\))*)", body)
+        if not m:
+            raise ValueError("Ord::cmp: a chain of x.f.cmp(&y.f).then_with(..)")
+        links = [(m.group(1), m.group(2), m.group(3), m.group(4))] + re.findall(r"\.then_with\(\|\|(other|self)\.([a-z]+)\.cmp\(&(other|self)\.([a-z]+)\)\)", m.group(5))
+        for (a, fa, b, fb) in links:
+            if fa != fb or a == b or fa not in FLD:
+                raise ValueError("Ord::cmp link %r" % ((a, fa, b, fb),))
+            pf["cmp"].append("(%s, %s)" % (FLD[fa], "true" if a == "other" else "false"))
+        i = psrc.index("impl PartialEq for PrefixFile")
+        body = re.sub(r"\s+", "", fn_body(psrc[i:], "fn eq"))
+        parts = body.split("&&")
+        for p in parts:
+            m = re.fullmatch(r"(?:other|self)\.([a-z]+)\.eq\(&(?:other|self)\.([a-z]+)\)", p)
+            if not m or m.group(1) != m.group(2) or m.group(1) not in FLD:
+                raise ValueError("PartialEq::eq part %r" % p)
+            pf["eq"].append(FLD[m.group(1)])
+        j = psrc.index("impl PrefixFileSet")
+        ps = psrc[j:]
+        body = re.sub(r"\s+", "", fn_body(ps, "pub fn delete_oldest"))
+        rest = body
+        DST = [(r"letfile=self\.files\.peek\(\)\.unwrap\(\);", "DPeekUnwrap"),
+               (r"remove_file\(&file\.path\)\.map_err\(\|e\|format!\(\"[^\"]*\",file\.path\)\)\?;", "DRemoveFileOrErr"),
+               (r"self\.len-=file\.len;", "DLenSubFileLen"),
+               (r"self\.files\.pop\(\);", "DPop"),
+               (r"Ok\(\(\)\)$", "DOk")]
+        while rest:
+            for pat, name in DST:
+                m = re.match(pat, rest)
+                if m:
+                    pf["dele"].append(name); rest = rest[m.end():]
+                    break
+            else:
+                raise ValueError("delete_oldest statement %r" % rest[:50])
+        OPS = {"<": "LcLt", "<=": "LcLe", ">": "LcGt", ">=": "LcGe"}
+        body = re.sub(r"\s+", "", fn_body(ps, "pub fn delete_older_than"))
+        m = re.fullmatch(r"letmin_mtime=now-duration;whileletSome\(file\)=self\.files\.peek\(\)\{iffile\.mtime(<=|>=|<|>)min_mtime\{self\.delete_oldest\(\)\?;\}else\{break;\}\}Ok\(\(\)\)", body)
+        if not m:
+            raise ValueError("delete_older_than shape")
+        pf["older"] = OPS[m.group(1)]
+        body = re.sub(r"\s+", "", fn_body(ps, "pub fn delete_oldest_while_over_max_len"))
+        m = re.fullmatch(r"whileself\.len(<=|>=|<|>)max_len\{self\.delete_oldest\(\)\?;\}Ok\(\(\)\)", body)
+        if not m:
+            raise ValueError("delete_oldest_while_over_max_len shape")
+        pf["over"] = OPS[m.group(1)]
+        body = re.sub(r"\s+", "", fn_body(ps, "pub fn push"))
+        rest = body
+        while rest:
+            m = re.match(r"self\.len\+=file\.len;", rest)
+            if m:
+                pf["push"].append("PLenAddFileLen"); rest = rest[m.end():]; continue
+            m = re.match(r"self\.files\.push\(file\);", rest)
+            if m:
+                pf["push"].append("PHeapPush"); rest = rest[m.end():]; continue
+            raise ValueError("push statement %r" % rest[:40])
+        body = re.sub(r"\s+", "", fn_body(ps, "pub fn new"))
+        if not (re.search(r"ifpath\.as_os_str\(\)\.as_encoded_bytes\(\)\.starts_with\(path_prefix\.as_os_str\(\)\.as_encoded_bytes\(\)\)\{", body)
+                and re.search(r"ifmetadata\.is_file\(\)\{letmtime=metadata\.modified\(\)\.unwrap\(\);letlen=metadata\.len\(\);files\.push\(PrefixFile\{path,mtime,len\}\);\}", body)
+                and re.search(r"letlen=files\.iter\(\)\.map\(\|f\|f\.len\)\.sum\(\);Ok\(Self\{files,len\}\)$", body)):
+            raise ValueError("new: byte-prefix filter, regular files only, len = sum of the lengths")
+        pf["new_ok"] = True
+    except Exception as e:   # noqa
+        P.append("src/log/prefix_file_set.rs: cannot translate (%s)" % e)
+        pf = dict(cmp=[], eq=[], dele=[], older="LcLt", over="LcGt", push=[], new_ok=False)
+    L += ["(* src/log/prefix_file_set.rs: Ord::cmp as a chain of (field, operands reversed); the fields PartialEq compares;",
+          "   delete_oldest statement by statement; the comparison of the two deletion loops; push statement by statement;",
+          "   PrefixFileSet::new has the shape the model transcribes (byte-prefix filter, regular files, len = sum) *)",
+          "Definition src_pfs_cmp : list (pf_field * bool) := [%s]." % "; ".join(pf["cmp"]),
+          "Definition src_pfs_eq : list pf_field := [%s]." % "; ".join(pf["eq"]),
+          "Definition src_pfs_delete_oldest : list dstmt := [%s]." % "; ".join(pf["dele"]),
+          "Definition src_pfs_older_cmp : loop_cmp := %s." % pf["older"],
+          "Definition src_pfs_over_cmp : loop_cmp := %s." % pf["over"],
+          "Definition src_pfs_push : list pstmt := [%s]." % "; ".join(pf["push"]),
+          "Definition src_pfs_new_shape_ok : bool := %s." % ("true" if pf["new_ok"] else "false"), ""]
+
     # ---- src/headers.rs: HeaderList::{add, get_only, get_all, remove_only, remove_all} -- loop shapes, the comparison,
     #      the Vec method that takes a header out
     hd = dict(cmp="", rm="")
@@ -722,7 +803,7 @@ def translate(repo):
     items = [("chunk", "src/util.rs"), ("event_queue", "src/response.rs"), ("conn_buf", "src/http_conn.rs HttpConn.buf"), ("conn_guards", "src/http_conn.rs state guards"),
              ("time", "src/time.rs"), ("content_type", "src/content_type.rs"), ("log_prio", "src/log/logger.rs log()"),
              ("event_fmt", "src/event.rs"), ("regex", "src/head.rs"), ("cookie", "src/cookie.rs"), ("request", "src/request.rs"),
-             ("json", "src/log/tag_value.rs"), ("jsonl", "src/log/logger.rs write_jsonl"), ("writer", "src/log/log_file_writer.rs"), ("headers", "src/headers.rs")]
+             ("json", "src/log/tag_value.rs"), ("jsonl", "src/log/logger.rs write_jsonl"), ("writer", "src/log/log_file_writer.rs"), ("headers", "src/headers.rs"), ("pfs", "src/log/prefix_file_set.rs")]
     L.append("(* what the translator could not read, per item (0 everywhere = the translation is complete) *)")
     for key, prefix in items:
         L.append("Definition src_problems_%s : nat := %d." % (key, sum(1 for p in P if p.startswith(prefix))))
